@@ -170,7 +170,7 @@ class OutputBuffer:
 
     def v(self, s: str, write_now: bool = False) -> 'OutputBuffer':
         '''Prints a message if verbose output is enabled.'''
-        if self.verbose or self.debug:
+        if (self.verbose and not self.json) or self.debug:  # In JSON mode, stdout must hold the JSON document only.
             self.info(s)
             if write_now and self.get_level('info') >= self.__level:  # A message dropped by the minimum output level must not be flushed as a blank line.
                 self.write()
